@@ -61,7 +61,9 @@ def table(rng):
     # mostly small tables; one in eight is larger (9..40 rows): order / hashing effects only show beyond ~8 rows
     n = rng.choice([0, 1, 1, 2, 3, 4, 5, 6, 7]) if rng.random() < 0.875 else rng.choice([9, 12, 17, 25, 40])
     k = rng.choice([1, 2, 2, 3])
-    cols = rng.sample(NAMES, k)
+    # one table in six has a column whose NAME is a parameter name of the dictable constructor ('columns', 'data'): a result that is
+    # rebuilt through keyword arguments would swallow it
+    cols = rng.sample(NAMES + (['columns', 'data'] if rng.random() < 0.17 else []), k)
     t = {}
     for c in cols:
         pool = [cell(rng) for _ in range(rng.choice([1, 2, 3, 4, 6]))]
